@@ -24,6 +24,22 @@ NOT_APPLICABLE = {
 
 # id -> (technique, level text, level note, design ref)
 CLAIMS = {
+    'C16': ('override/reachability analysis over the Taylor2D method-resolution order, path-specialised may-alias purity analysis '
+            '(inplace=False), sibling predicate agreement of the truncation branches, class-table owner lint, array-valued '
+            'accumulation lint',
+            'Static, exhaustive over PowerExpansion.py: decides that every 3D-specific Taylor3D member is overridden or '
+            'unreachable from Taylor2D, that inherited methods never name the concrete class, that the copying forms of the '
+            'nine coefficient operations never write through (or return) their operands, that in-place and copying truncation '
+            'agree, that class tables have a single writer, and that no accumulation goes through an array-valued index. The '
+            'index tables and the algebra are NOT decided (evaluating them is execution).',
+            'trusts CPython ast; numpy value-semantics table of the alias engine', 'DESIGN.md §4 C16'),
+    'C17': ('same engines as C16 restricted to the rotation / inversion anchors, plus sibling agreement of the truncation filters '
+            'inside the inverse series',
+            'Static, exhaustive over rotatedirections / rotatecoeff / rotate / irotate / inversecoeff / inv: decides override, '
+            'construction through type(self), operand purity, absence of array-valued accumulation in the table builders, and '
+            'that every truncation filter of the inverse series tests the shifted power alike. Exactness of rotation and '
+            'inversion is NOT decided.',
+            'trusts CPython ast', 'DESIGN.md §4 C17'),
     'C29': ('def-use on zip alignments (representative pairing), sibling pattern for the placement index, who-may-write lint, '
             'statement-order patterns for NEB atom order, must-reach rule for the small-cell warning',
             'Static, exhaustive over both makesupercells: decides that tag and placed defect are the same class member, that '
